@@ -112,6 +112,15 @@ Proof. vm_compute. discriminate. Qed.
 Lemma id_order_history_dependent : observe [] lt_prog <> observe [HIntern "b"] lt_prog.
 Proof. vm_compute. discriminate. Qed.
 
+Lemma raw_id_refuted : exists (h1 h2 : list hop) (p : prog), observe h1 p <> observe h2 p.
+Proof. exists [], [HIntern "y"], raw_prog. exact raw_id_history_dependent. Qed.
+
+Lemma id_order_refuted : exists (h1 h2 : list hop) (p : prog),
+    (forall v k, p <> EmitRaw v k) /\ observe h1 p <> observe h2 p.
+Proof.
+  exists [], [HIntern "b"], lt_prog. split; [intros v k H; discriminate H|exact id_order_history_dependent].
+Qed.
+
 (* ------------------------------------------------------------------------------------------------ *)
 (* atomicity of get_or_intern is necessary                                                         *)
 (* ------------------------------------------------------------------------------------------------ *)
